@@ -209,15 +209,21 @@ static inline void SetFieldDataLength(   void * ftptr, uint32 newVal) {UMWriteIn
 
 static const uint32 MINIMUM_FIELD_HEADERS_SIZE = (3*sizeof(uint32));  // name_length, type_code, data_length (name_string and data not included!)
 
-static UBool IsFieldPointerValid(const UMessage * msg, uint8 * ptr)
+/** Returns UTrue iff the field-header at (ptr) and all of the field-data bytes it declares are located inside the valid-bytes region of (msg) */
+static UBool IsFieldHeaderValid(const UMessage * msg, uint8 * ptr)
 {
    void * ftptr = (GetNumValidBytesAt(msg, ptr) >= MINIMUM_FIELD_HEADERS_SIZE) ? GetFieldTypePointer(ptr) : NULL;
    if ((ftptr)&&(GetNumValidBytesAt(msg, ((uint8*)ftptr)) >= (sizeof(uint32)+sizeof(uint32))))
    {
-      uint8 * fData = GetFieldData(ftptr);
-      return (GetNumValidBytesAt(msg, fData) > 0);
+      const uint32 offsetOfFieldData = (uint32)(GetFieldData(ftptr)-msg->_buffer);  /* guaranteed <= _numValidBytes by the test above */
+      return (GetFieldDataLength(ftptr) <= (msg->_numValidBytes-offsetOfFieldData));
    }
    return UFalse;
+}
+
+static UBool IsFieldPointerValid(const UMessage * msg, uint8 * ptr)
+{
+   return ((IsFieldHeaderValid(msg, ptr))&&(GetNumValidBytesAt(msg, GetFieldData(GetFieldTypePointer(ptr))) > 0));
 }
 
 static void IncreaseCurrentFieldDataLength(UMessage * msg, uint32 numBytes);  /* forward declaration */
@@ -516,7 +522,8 @@ void UMIteratorInitialize(UMessageFieldNameIterator * iter, const UMessage * msg
    if (msg->_numValidBytes > MESSAGE_HEADER_SIZE)
    {
       iter->_currentField = msg->_buffer+MESSAGE_HEADER_SIZE;
-      if (UMIteratorCurrentFieldMatches(iter) == UFalse) UMIteratorAdvance(iter);
+      if (IsFieldHeaderValid(msg, iter->_currentField) == UFalse) iter->_currentField = NULL;  /* don't iterate over a truncated or corrupt field */
+      else if (UMIteratorCurrentFieldMatches(iter) == UFalse) UMIteratorAdvance(iter);
    }
    else iter->_currentField = NULL;
 }
@@ -600,6 +607,11 @@ void UMIteratorAdvance(UMessageFieldNameIterator * iter)
          if (bytesLeft < MINIMUM_FIELD_HEADERS_SIZE)
          {
             if (bytesLeft > 0) printf("UMIteratorAdvance:  Iteration found too-short field-header (" UINT32_FORMAT_SPEC " < " UINT32_FORMAT_SPEC "), aborting iteration!\n", bytesLeft, MINIMUM_FIELD_HEADERS_SIZE);
+            iter->_currentField = NULL;
+         }
+         else if (IsFieldHeaderValid(iter->_message, iter->_currentField) == UFalse)
+         {
+            printf("UMIteratorAdvance:  Iteration found a field that extends past the end of the valid data, aborting iteration!\n");
             iter->_currentField = NULL;
          }
       }
@@ -908,6 +920,7 @@ const char * UMGetString(const UMessage * msg, const char * fieldName, uint32 id
 
    const uint8 * afterEndOfField = GetFieldData(ftptr)+GetFieldDataLength(ftptr);
    const uint8 * pointerToString = ((uint8 *)ftptr)+(4*sizeof(uint32));  /* skip past the field-type, field-size, number-of-items, and first-string-length fields */
+   if (pointerToString > afterEndOfField) return NULL;  /* field is too short to contain even the first string-length field */
    while(idx > 0)
    {
       const uint32 stringSize = UMReadInt32(pointerToString-sizeof(uint32));
@@ -933,6 +946,7 @@ c_status_t UMFindData(const UMessage * msg, const char * fieldName, uint32 dataT
 
    const uint8 * afterEndOfField = GetFieldData(ftptr)+GetFieldDataLength(ftptr);
    const uint8 * pointerToBlob = ((uint8 *)ftptr)+(4*sizeof(uint32));  /* skip past the field-type, field-size, num-items, and first-blob-length fields */
+   if (pointerToBlob > afterEndOfField) return CB_ERROR;  /* field is too short to contain even the first blob-length field */
    while(idx > 0)
    {
       const uint32 blobSize = UMReadInt32(pointerToBlob-sizeof(uint32));  /* move past the blob and the next blob's string-length-field */
@@ -942,8 +956,11 @@ c_status_t UMFindData(const UMessage * msg, const char * fieldName, uint32 dataT
    }
    if (pointerToBlob >= afterEndOfField) return CB_ERROR;
 
+   const uint32 lastBlobSize = UMReadInt32(pointerToBlob-sizeof(uint32));
+   if (lastBlobSize > (uint32)(afterEndOfField-pointerToBlob)) return CB_ERROR;  /* blob would extend past the end of the field */
+
    *retDataBytes = pointerToBlob;
-   *retNumBytes  = UMReadInt32(pointerToBlob-sizeof(uint32));
+   *retNumBytes  = lastBlobSize;
    return CB_NO_ERROR;
 }
 
@@ -955,6 +972,7 @@ c_status_t UMFindMessage(const UMessage * msg, const char * fieldName, uint32 id
    void * ftptr = GetFieldTypePointer(field);
    const uint8 * afterEndOfField = GetFieldData(ftptr)+GetFieldDataLength(ftptr);
    const uint8 * pointerToMsg = ((uint8 *)ftptr)+(3*sizeof(uint32));  /* skip past the field-type, field-size, and first-msg-length fields (there is no field-size field) */
+   if (pointerToMsg > afterEndOfField) return CB_ERROR;  /* field is too short to contain even the first msg-length field */
    while(idx > 0)
    {
       const uint32 msgSize = UMReadInt32(pointerToMsg-sizeof(uint32));
@@ -962,7 +980,11 @@ c_status_t UMFindMessage(const UMessage * msg, const char * fieldName, uint32 id
       pointerToMsg += msgSize+sizeof(uint32);  /* move past the msg and the next msg's msg-length-field */
       idx--;
    }
-   return UMInitializeWithExistingData(retMessage, pointerToMsg, UMReadInt32(pointerToMsg-sizeof(uint32)));
+   {
+      const uint32 lastMsgSize = UMReadInt32(pointerToMsg-sizeof(uint32));
+      if (lastMsgSize > (uint32)(afterEndOfField-pointerToMsg)) return CB_ERROR;  /* sub-message would extend past the end of the field */
+      return UMInitializeWithExistingData(retMessage, pointerToMsg, lastMsgSize);
+   }
 }
 
 UBool UMGetBoolFromArray(UBoolArrayHandle handle, uint32 idx)
